@@ -10,6 +10,16 @@ component streams (real functions called in-process, compared with the Lean mode
   hist : sequences of textDefault calls on ONE renderer object (plain and isMarkup strings, repeated strings):
          the hook must have no memory.  Every case of every stream gets a new renderer object, so a case is replayable.
   dec  : ties the Spec reader `decode` to html.parser on the fragment where both are defined alike
+  flt  : the expression / filter layer of the Jinja2 templates: `{{ x | e }}`, `{{ x | striptags }}`, chains of both, on a
+         rendered node value (through the real hook) or a raw string, evaluated by the real Jinja2 environment and compared
+         with Model/TemplateExpr.lean (markupsafe.escape, Markup.striptags, Markup/str typing of chained filters)
+  tal  : the TAL expressions of the XHTML templates (plain path / string:, text / structure / the unimplemented `stripped`,
+         element content / attribute value) on a node value or a raw string, evaluated by the real simpleTAL through
+         PageTemplate.htmltemplate and compared with emitTal of Model/TemplateExpr.lean
+translator: besides the escape tables, Generated/Templates.lean lists EVERY `{{ ... }}` of the HTML5 renderer's template files
+  (file, expression, source kind node/raw/trusted, filter chain, content/attribute position, in scope?); the theorem
+  all_html5_interpolations_safe is re-checked against it on every run; likewise every tal:content / tal:replace /
+  tal:attributes expression of the XHTML renderer's files (talInterpolations, all_xhtml_expressions_safe).
 document level (extra_checks, oracle doc12): generated documents with adversarial text in every text-bearing position
   x {HTML5, XHTML} x theme x split-level x escape-high-chars x output encoding x the options of Config.py /
   HTML5/Config.py that templates consult (breadcrumbs-level, localtoc-level, display-toc, toc-depth, toc-non-files,
@@ -36,7 +46,10 @@ LEVEL_TEXT = ('Lean 4 theorems over a line-by-line model of PageTemplate.textDef
               'the clean-up regexes lose, change or reorder no non-blank character of the character data (only &nbsp; is added in empty cells) and never '
               'touch escaped text; the hook is memoryless (hook_history_independent) and the child loop carries nothing from one child to the next; '
               'every node tree rendered through tag-only templates displays exactly its text leaves, also next to complete declared markup '
-              '(render_with_markup_leaves), and the same for templates that are arbitrary sequences of complete literal output and content '
+              '(render_with_markup_leaves); every {{ }} interpolation of the HTML5 template files that shows a text position is of a syntactic class '
+              '(node in element content, raw|e, x|striptags|e) that provably displays text as text for every string (all_html5_interpolations_safe over the '
+              'regenerated table, safe_interpolation_displays_text, escape_filter_safe over a model of markupsafe.escape / Markup.striptags), and likewise every '
+              'TAL expression of the XHTML template files (all_xhtml_expressions_safe, safe_tal_expression_displays_text over a model of simpleTAL escaping); and the same for templates that are arbitrary sequences of complete literal output and content '
               'interpolations, repeated or dropped (render_piece_templates). '
               'PARTIAL: Jinja2/simpleTAL expansion of the ~110 template files is not modelled; that each template emits node text only through '
               'the escaping hook (and escapes text it copies into attributes) is carried by the document-level oracle doc12 (sampled), not by a theorem.')
@@ -46,7 +59,10 @@ LEVEL_NOTE = ('Trusted: Lean kernel (axioms propext, Classical.choice, Quot.soun
 TECHNIQUE = 'Lean 4 proof (induction on strings/trees, finite table checks by kernel decide) + regenerated escape tables + differential correspondence + document-level html.parser oracle'
 TRUSTED = ['Jinja2 / simpleTAL template expansion (carried by doc12 only)', 'html.parser as the reader of rendered output',
            'Python re semantics of the four regexes (re-implemented as scanners, tied by streams pfc/h5/xh)']
-ASSUMPTIONS = ['an installation without Pygments is simulated by setting plasTeX.Packages.listings.pygments = None (what its failed import leaves)',
+ASSUMPTIONS = ['template interpolations are classified by the NAME of the expression (textContent/source/plain_listing = raw string; url/id/config/... = '
+               'template data; anything else = DOM node rendered through the hook); interpolations of URL arguments, math sources, labels/form fields and '
+               'generated numbers are listed in the table as out of scope, not claimed',
+               'an installation without Pygments is simulated by setting plasTeX.Packages.listings.pygments = None (what its failed import leaves)',
                'utf-16 output is not combined with package listings (its UTF-8 pygments.css is re-read in the output encoding)',
                'no generated images are registered with the imagers (no LaTeX in the sandbox): the image-placeholder pass is the identity',
                'html5 filters / processFileContents callbacks are not configured',
@@ -204,7 +220,185 @@ def gen_escape():
     return 'PlasVerif/Generated/Escape.lean', src, mode
 
 
-GENERATED = [gen_escape]
+# ---- the expression / filter layer of the Jinja2 templates: every `{{ ... }}` of the HTML5 renderer's files
+
+RAW_LAST = {'textContent', 'source', 'plain_listing'}            # Python strings holding document text as typed
+TRUSTED_LAST = {'url', 'id', 'px', 'em', 'inline', 'style', 'float', 'nodeName', 'thmName', 'len', 'width', 'height', 'depth', 'colspan',
+                'rowspan', 'html_listing', 'mathjax_source', 'num', 'position'}
+TRUSTED_NAMES = {'class', 'css', 'js', 'icon', 'id', 'key', 'val', 'alignment'}      # template-local names bound to configuration / template data
+TRUSTED_ROOTS = {'config', 'loop', 'doc', 'context', 'nav', 'rendererdata'}
+# unsafe-looking interpolations that are not one of the property's text positions: listed in the table, not claimed
+OUT_OF_SCOPE = [
+    (r'(^|\.)source$', 'TeX source of a formula or picture (alt text of a generated image)'),
+    (r'^(obj|self)$|(^|\.)attributes\.url( or obj)?$|\.url$', 'URL argument written into href/src'),
+    (r'(^|\.)attributes\.(label|name|category|arguments\.label|parameters\.\w+)( or .*)?$', 'label / form-field name used as id, name or value'),
+    (r'(^|\.)ref\.textContent$', 'generated number of a sectioning unit'),
+]
+_PATH = re.compile(r"[A-Za-z_]\w*(?:\.[A-Za-z_]\w*|\[['\"][\w-]+['\"]\])*$")
+
+
+def _classify_base(base):
+    worst = 'trusted'
+    for alt in re.split(r'\s+or\s+', base):
+        alt = alt.strip()
+        if not _PATH.match(alt):
+            kind = 'trusted'          # macro calls, method calls, literals: template-side data
+        else:
+            comps = re.findall(r"[A-Za-z_]\w*|\[['\"]([\w-]+)['\"]\]", alt)
+            names = re.findall(r"\w[\w-]*", alt)
+            last, root = names[-1], names[0]
+            if last in RAW_LAST:
+                kind = 'raw'
+            elif last in TRUSTED_LAST or root in TRUSTED_ROOTS or (len(names) == 1 and root in TRUSTED_NAMES):
+                kind = 'trusted'
+            else:
+                kind = 'rendered'     # a DOM node or node attribute: written through Renderable.__str__
+        if kind == 'raw' or (kind == 'rendered' and worst == 'trusted'):
+            worst = kind
+    return worst
+
+
+def scan_templates():
+    """[(file, position, expression, source kind, [filters], in scope?, reason)] for every interpolation"""
+    import glob
+    import plasTeX
+    root = os.path.join(os.path.dirname(plasTeX.__file__), 'Renderers', 'HTML5')
+    files = sorted(glob.glob(os.path.join(root, '*.jinja2s')) + glob.glob(os.path.join(root, '*.jinja2')) +
+                   glob.glob(os.path.join(root, 'Themes', '*', '*.jinja2')))
+    rows = []
+    for f in files:
+        t = open(f, encoding='utf-8').read()
+        blank = lambda m: ' ' * len(m.group(0))
+        t = re.sub(r'\{%.*?%\}', blank, t, flags=re.S)
+        t = re.sub(r'\{#.*?#\}', blank, t, flags=re.S)
+        for m in re.finditer(r'\{\{(.*?)\}\}', t, flags=re.S):
+            before = re.sub(r'\{\{.*?\}\}', '', t[:m.start()], flags=re.S)
+            pos = 'attr' if before.rfind('<') > before.rfind('>') else 'text'
+            expr = ' '.join(m.group(1).split())
+            parts = [x.strip() for x in expr.split('|')]
+            filts, known = [], True
+            for fl in parts[1:]:
+                if fl in ('e', 'escape'): filts.append('esc')
+                elif fl == 'striptags': filts.append('striptags')
+                else: known = False
+            src = _classify_base(parts[0]) if known else 'raw'      # an unknown filter: claim nothing for it
+            reason = ''
+            if src != 'trusted':
+                for rx, why in OUT_OF_SCOPE:
+                    if re.search(rx, parts[0]) and (pos == 'attr' or 'number' in why):
+                        reason = why
+                        break
+            rows.append((os.path.relpath(f, root), pos, expr, src, filts, reason == '', reason))
+    return rows
+
+
+HELP_FILES = ('EclipseHelp.zpts', 'JavaHelp.zpts', 'CHM.zpts')
+
+
+def _tal_classify(expr):
+    """(source kind, via string:, mode) of one TAL expression"""
+    e = expr.strip()
+    mode = 'text'
+    if e.startswith('structure '):
+        mode, e = 'structure', e[10:].strip()
+    elif e.startswith('text '):
+        e = e[5:].strip()
+    if e.startswith('stripped'):
+        return 'rendered', False, 'dropped'
+    if re.match(r'(python|not|exists|nocall):', e):
+        return 'trusted', False, mode
+    if e.startswith('string:'):
+        parts = re.findall(r'\$\{([^}]*)\}', e[7:])
+        kinds = [_classify_base(x.strip().replace('/', '.')) for x in parts]
+        src = 'raw' if 'raw' in kinds else ('rendered' if 'rendered' in kinds else 'trusted')
+        return src, True, mode
+    kinds = [_classify_base(x.strip().replace('/', '.')) for x in e.split('|')]
+    src = 'raw' if 'raw' in kinds else ('rendered' if 'rendered' in kinds else 'trusted')
+    return src, False, mode
+
+
+def _tal_safe(src, via, mode, pos):
+    return (src == 'trusted' or mode == 'dropped' or (src == 'rendered' and pos == 'content' and not via)
+            or (src == 'raw' and mode == 'text' and pos == 'content') or (src == 'raw' and pos == 'attr'))
+
+
+def scan_tal_templates():
+    """[(file, position, expression, source kind, via string:, mode, in scope?, reason)] for every TAL expression of the XHTML renderer"""
+    import glob, plasTeX
+    root = os.path.join(os.path.dirname(plasTeX.__file__), 'Renderers', 'XHTML')
+    files = sorted(glob.glob(os.path.join(root, '*.zpts')) + glob.glob(os.path.join(root, '*.html')) +
+                   glob.glob(os.path.join(root, 'Themes', '*', '*.html')))
+    rows = []
+    for f in files:
+        t = open(f, encoding='utf-8', errors='replace').read()
+        # the body of an element with metal:use-macro is replaced by the macro: never rendered
+        t = re.sub(r'(<(\w+)\b[^>]*metal:use-macro[^>]*>).*?(</\2>)', lambda m: m.group(1) + m.group(3), t, flags=re.S)
+        rel = os.path.relpath(f, root)
+        for m in re.finditer(r'tal:(content|replace|attributes)\s*=\s*("([^"]*)"|\'([^\']*)\')', t):
+            val = m.group(3) if m.group(3) is not None else m.group(4)
+            if m.group(1) == 'attributes':
+                exprs = []
+                for part in re.split(r'(?<!;);(?!;)', val):
+                    part = ' '.join(part.split())
+                    if part:
+                        exprs.append(('attr', part.partition(' ')[2].strip()))
+            else:
+                exprs = [('content', ' '.join(val.split()))]
+            for pos, e in exprs:
+                src, via, mode = _tal_classify(e)
+                reason = ''
+                if not _tal_safe(src, via, mode, pos):
+                    dotted = re.sub(r'^(structure|text) ', '', e).replace('/', '.')
+                    if os.path.basename(rel) in HELP_FILES:
+                        reason = 'table-of-contents file of a help system (XML / HHC), not an HTML page'
+                    elif e.startswith('string:') and all(re.search(r'/(captionName|title|ref|subref)$', x.strip())
+                                                         for x in re.findall(r'\$\{([^}]*)\}', e)) and re.search(r'/(ref|subref)\}', e):
+                        reason = 'caption / reference label (name of the float kind and its number)'
+                    else:
+                        for alt in re.split(r'\s*\|\s*', re.sub(r'^string:', '', dotted)):
+                            alt = re.sub(r'[${}#]', ' ', alt).split()
+                            for a in alt or ['']:
+                                for rx, why in OUT_OF_SCOPE:
+                                    if re.search(rx, a) and (pos == 'attr' or 'number' in why):
+                                        reason = reason or why
+                rows.append((rel, pos, e, src, via, mode, reason == '', reason))
+    return rows
+
+
+def gen_templates():
+    import plasTeX
+    rows = scan_templates()
+    if len(rows) < 50:
+        raise ValueError('only %d interpolations found' % len(rows))
+    seen, body = set(), []
+    for f, pos, expr, src, filts, scope, reason in rows:
+        key = (f, pos, expr)
+        if key in seen:
+            continue
+        seen.add(key)
+        body.append('  { file := %s, expr := %s, src := .%s, filts := [%s], pos := .%s, inScope := %s }' % (
+            extract.lean_str(f), extract.lean_str(expr), src, ', '.join('.' + x for x in filts), pos, 'true' if scope else 'false'))
+    src_ = (extract.HEADER % ('plasTeX/Renderers/HTML5/*.jinja2s, *.jinja2, Themes/*/*.jinja2 (every {{ ... }} interpolation)', 'exact') +
+            'import PlasVerif.Model.TemplateExpr\nnamespace PlasVerif.Generated.Templates\nopen PlasVerif.Model.TemplateExpr\n'
+            '/-- every distinct interpolation of the HTML5 template files: source kind, filter chain, position -/\n'
+            'def interpolations : List Interp := [\n' + ',\n'.join(body) + ']\n')
+    trows = scan_tal_templates()
+    if len(trows) < 50:
+        raise ValueError('only %d TAL expressions found' % len(trows))
+    seen, tbody = set(), []
+    for f, pos, expr, src, via, mode, scope, reason in trows:
+        key = (f, pos, expr)
+        if key in seen:
+            continue
+        seen.add(key)
+        tbody.append('  { file := %s, expr := %s, src := .%s, viaString := %s, mode := .%s, pos := .%s, inScope := %s }' % (
+            extract.lean_str(f), extract.lean_str(expr), src, 'true' if via else 'false', mode, pos, 'true' if scope else 'false'))
+    src_ += ('/-- every distinct `tal:content` / `tal:replace` / `tal:attributes` expression of the XHTML template files -/\n'
+             'def talInterpolations : List TalInterp := [\n' + ',\n'.join(tbody) + ']\nend PlasVerif.Generated.Templates\n')
+    return 'PlasVerif/Generated/Templates.lean', src_, 'exact'
+
+
+GENERATED = [gen_escape, gen_templates]
 
 # ---------------------------------------------------------------- html.parser observation
 
@@ -338,6 +532,25 @@ def gen_tree(rng, depth, top=False, pool=None):
     return out
 
 
+FLT_FRAGS = ['<', '>', '&', '"', "'", '<b>', '</b>', '<i class="x">', '<!--', '-->', '<!-- c -->', '<!-->', ' ', '  ', '\n', '\t', '\xa0', 'a', 'b c', 'x',
+             '&amp;', '&lt;', '&gt;', '&quot;', '&#60;', '&#34;', '&#39;', '&nbsp;', ';', '#', '=', '\xe9', '\u65e5', 'onx="y"', '/', '!', '-', '--']
+FLT_CHAINS = ['-', 'e', 's', 's,e', 's,e', 'e,s', 'e,e', 's,s']
+
+
+def gen_flt(rng):
+    """an interpolation `{{ x | f1 | f2 }}` of a rendered node (r) or a raw string (w) for a piece of text"""
+    s = ''.join(rng.choice(FLT_FRAGS) for _ in range(rng.randint(0, 7)))
+    return Case('flt', '%s %s %s' % (rng.choice('rw'), rng.choice(FLT_CHAINS), cps(s)))
+
+
+def gen_tal(rng):
+    """a TAL expression of the XHTML templates on a node value (r) or a raw string (w): plain path or `string:`,
+    text / structure / the unimplemented `stripped`, as element content or attribute value"""
+    s = ''.join(rng.choice(FLT_FRAGS) for _ in range(rng.randint(0, 7)))
+    s = s.replace('\r', '').replace('\n', ' ').replace('\t', ' ')      # attribute values: keep to one line
+    return Case('tal', '%s %d %s %s %s' % (rng.choice('rw'), rng.randrange(2), rng.choice('ttsd'), rng.choice('ca'), cps(s)))
+
+
 def gen_hist(rng):
     """a sequence of hook calls on one renderer: `m n c..` repeated; strings repeat with both flags"""
     pool = [rng.choice(WELL_MARKUP + FRAGS) for _ in range(rng.randint(1, 3))] + [rand_string(rng, FRAGS, 3)]
@@ -368,6 +581,10 @@ def generate(ctx):
         yield Case('tree', ' '.join(gen_tree(rng, rng.randint(1, 4), top=True)))
     for _ in range(n // 3):
         yield Case('hist', ' '.join(gen_hist(rng)))
+    for _ in range(n // 2):
+        yield gen_flt(rng)
+    for _ in range(n // 2):
+        yield gen_tal(rng)
     for _ in range(n // 3):
         s = ''.join(rng.choice(DEC_FRAGS) for _ in range(rng.randint(0, 8)))
         yield Case('dec', cps(s))
@@ -411,6 +628,10 @@ def nontrivial(o):
         return any(w in ('38', '60', '62') for w in body) and 'E' in body[1:]
     if o.case.stream == 'hist':
         return any(w in ('38', '60', '62') for w in body)
+    if o.case.stream == 'flt':
+        return any(w in ('38', '60', '62', '34') for w in body[2:])
+    if o.case.stream == 'tal':
+        return any(w in ('38', '60', '62', '34') for w in body[4:])
     ws = body[1:] if o.case.stream != 'dec' else body
     if o.case.stream in ('h5', 'xh'):
         return o.impl != ' '.join(ws) or '60' in ws
@@ -537,8 +758,64 @@ def tree_reference(tree):
     return go(tree, True), texts
 
 
+_JENV = {}
+
+
+class _TalValue:
+    """a non-str object whose str() is its rendering (what a DOM node is for simpleTAL)"""
+    def __init__(self, rendered):
+        self.rendered = rendered
+
+    def __str__(self):
+        return self.rendered
+
+
+def _tal_eval(src, via, mode, pos, t):
+    from plasTeX.Renderers.PageTemplate import htmltemplate
+    o = types.SimpleNamespace()
+    o.x = _TalValue(_renderer().textDefault(t)) if src == 'r' else t
+    o.ownerDocument = types.SimpleNamespace(config={}, context=None)
+    o.parentNode = o.renderer = None
+    path = 'string:${self/x}' if via else 'self/x'
+    if mode == 'd':
+        expr = ('stripped:' if pos == 'a' else 'stripped ') + ('${self/x}' if via else 'self/x')
+    else:
+        expr = ('structure ' if mode == 's' and pos == 'c' else '') + path
+    key = (expr, pos)
+    if key not in _JENV:
+        _JENV[key] = htmltemplate('<p tal:content="%s">d</p>' % expr if pos == 'c' else '<a tal:attributes="title %s">d</a>' % expr)
+    import io, contextlib
+    with contextlib.redirect_stdout(io.StringIO()):      # simpleTAL prints a debugging line for non-str structure values
+        out = _JENV[key](o)
+    if pos == 'c':
+        assert out.startswith('<p>') and out.endswith('</p>'), out
+        return out[3:-4]
+    if out == '<a>d</a>':
+        return ''
+    assert out.startswith('<a title="') and out.endswith('">d</a>'), out
+    return out[len('<a title="'):-len('">d</a>')]
+
+
 def impl(case, aux):
     st = case.stream
+    if st == 'tal':
+        src, via, mode, pos, *ws = case.line.split()
+        try:
+            return cps(_tal_eval(src, via == '1', mode, pos, ''.join(chr(int(w)) for w in ws)))
+        except Exception as e:
+            return canon_exc(e)
+    if st == 'flt':
+        import jinja2
+        src, fl, *ws = case.line.split()
+        t = ''.join(chr(int(w)) for w in ws)
+        try:
+            value = _renderer().textDefault(t) if src == 'r' else t
+            expr = 'x' + ''.join(' | ' + {'e': 'e', 's': 'striptags'}[f] for f in fl.split(',') if fl != '-')
+            if expr not in _JENV:     # the environment plasTeX builds for its templates (PageTemplate.jinja2template)
+                _JENV[expr] = jinja2.Environment(trim_blocks=True, lstrip_blocks=True).from_string('{{ %s }}' % expr)
+            return cps(_JENV[expr].render(x=value))
+        except Exception as e:
+            return canon_exc(e)
     if st == 'hist':
         from plasTeX.DOM import Text
         r = _renderer()
@@ -635,6 +912,27 @@ def judge(o):
     if o.impl.startswith('err'):
         o.prop_ok = False
         o.note = 'the real function raised / returned a non-string'
+        return
+    if st == 'tal':
+        src, via, mode, pos, *ws = o.case.line.split()
+        out = from_cps(o.impl)
+        t = ''.join(chr(int(w)) for w in ws)
+        o.prop_ok = True
+        if o.spec == 'safe' and mode != 'd':
+            o.prop_ok = ('<' not in out and '>' not in out and (pos == 'c' or '"' not in out) and html.unescape(out) == t)
+        return
+    if st == 'flt':
+        src, fl, *ws = o.case.line.split()
+        out = from_cps(o.impl)
+        t = ''.join(chr(int(w)) for w in ws)
+        o.prop_ok = True
+        if o.spec == 'safe':      # a class the theorems call safe: the real filters must display the text as text
+            ev = html_events(out)
+            o.prop_ok = '<' not in out and '>' not in out and all(e[0] == 'text' for e in ev)
+            if fl.endswith('e'):
+                o.prop_ok = o.prop_ok and '"' not in out
+            if 's' not in fl:
+                o.prop_ok = o.prop_ok and ''.join(e[1] for e in ev) == t
         return
     if st == 'hist':
         calls = parse_calls(o.case.line.split())
@@ -883,6 +1181,7 @@ class DocSpec:
         self.parts = []      # strings and ('leaf', k)
         self.raws = []       # raw-HTML strings the document contains (declared markup, same in baseline and adversarial)
         self.use_raw = rng.random() < 0.35
+        self.use_index = rng.random() < 0.25     # \index entries (inert terms) and \printindex: the index page cites section titles
         self.leaves = []     # (position name, verbatim?)
         self.pkgs = []       # preamble lines the chosen positions need
         self.rng = rng
@@ -996,6 +1295,8 @@ class DocSpec:
         rng = self.rng
         if self.use_raw and rng.random() < 0.4:
             self.raw()
+        if self.use_index and rng.random() < 0.6:
+            self.add('indexed\\index{%s} ' % rng.choice(['alpha', 'beta', 'gamma', 'beta!sub']))
         if rng.random() < 0.3:
             self.pkg_block()
             return
@@ -1040,6 +1341,8 @@ class DocSpec:
         self.add('\\documentclass{%s}\n' % self.cls)
         if self.use_raw:
             self.add('\\usepackage{html}\n')
+        if self.use_index:
+            self.add('\\usepackage{makeidx}\\makeindex\n')
         self.add(('preamble',))
         if rng.random() < 0.8:
             self.add('\\title{'); self.leaf('doctitle'); self.add('}')
@@ -1070,6 +1373,8 @@ class DocSpec:
             self.add('\\begin{thebibliography}{9}\\bibitem{ka} '); self.leaf('bibitem')
             self.add('\n\\bibitem['); self.leaf('biblabel'); self.add(']{kb} '); self.leaf('bibitem')
             self.add('\n\\end{thebibliography}\n')
+        if self.use_index:
+            self.add('\\printindex\n')
         self.add('\\end{document}\n')
 
     def source(self, payloads):
